@@ -23,8 +23,8 @@ META = dict(
     outside=['exceptions raised in the middle of an accumulation kernel (no such path exists for valid dtypes)'],
     stubs=['time.process_time: symbolic clock', 'numba kernels interpreted'],
 )
-KINDS = ['rows', 'length', 'words', 'type-traces', 'type-data', 'dpa-range', 'auto-255', 'template-2words', 'match-before-build']
-DISTS = ['CPA', 'CPAAlt', 'DPA', 'ANOVA', 'SNR-auto', 'NICV', 'MIA', 'TemplateBuild', 'TemplateMatch']
+KINDS = ['rows', 'length', 'words', 'type-traces', 'type-data', 'dpa-range', 'auto-255', 'auto-bad-dtype', 'template-2words', 'template-auto-2words', 'match-before-build']
+DISTS = ['CPA', 'CPAAlt', 'DPA', 'ANOVA', 'SNR-auto', 'NICV', 'MIA', 'TemplateBuild', 'TemplateBuild-auto', 'TemplateMatch']
 
 
 def prepare(tier, seed):
@@ -51,10 +51,10 @@ def make(dist):
         return M['partitioned'].SNRDistinguisher(precision='float64')
     if dist == 'MIA':
         return M['mia'].MIADistinguisher(bin_edges=[0, 2, 4, 6], partitions=[0, 1, 2])
-    if dist == 'TemplateBuild':
+    if dist in ('TemplateBuild', 'TemplateBuild-auto'):
         class TB(M['partitioned'].PartitionedDistinguisherBase, M['template']._TemplateBuildDistinguisherMixin):
             pass
-        return TB(partitions=[0, 1], precision='float64')
+        return TB(partitions=[0, 1] if dist == 'TemplateBuild' else None, precision='float64')
     if dist == 'TemplateMatch':
         class TM(M['template'].TemplateAttackDistinguisherMixin):
             pass
@@ -77,7 +77,7 @@ def good_batch(dist, tag, rows=2):
         y = S.sym_real('y' + tag, (rows, 2), 'uint8')
     elif dist == 'DPA':
         y = S.const(rnp.array([[0, 1], [1, 1], [1, 0]][:rows], dtype='uint8'))
-    elif dist in ('TemplateBuild',):
+    elif dist in ('TemplateBuild', 'TemplateBuild-auto'):
         y = S.const(rnp.array([[0], [1], [1]][:rows], dtype='uint8'))
     elif dist == 'TemplateMatch':
         y = S.const(rnp.array([[0], [1], [0]][:rows], dtype='uint8'))
@@ -96,9 +96,18 @@ def bad_call(dist, kind, pos):
             return None
         return (S.sym_real('xb', (2, 3), 'float64') if dist != 'MIA' else S.const(rnp.array([[1, 2, 3], [3, 2, 1]], dtype='uint8'))), y
     if kind == 'words':
-        if pos == 'first' or dist in ('CPA', 'CPAAlt', 'DPA', 'TemplateBuild', 'TemplateMatch'):
+        if pos == 'first' or dist in ('TemplateBuild', 'TemplateMatch'):
             return None
+        if dist in ('CPA', 'CPAAlt'):
+            return x, S.sym_real('ybad', (2, 3), 'uint8')      # 3 words after 2: not broadcastable, numpy refuses inside _update
+        if dist == 'DPA':
+            return x, S.const(rnp.array([[0, 1, 1], [1, 1, 0]], dtype='uint8'))
         return x, S.const(rnp.array([[0, 1, 2], [2, 1, 0]], dtype='uint8'))
+    if kind == 'auto-bad-dtype':
+        # automatic classes: the first call passes _initialize (range 0..63 chosen) and is then refused by the class lookup (int64 data)
+        return (x, S.const(rnp.array([[0, 60], [1, 1]], dtype='int64'))) if dist == 'SNR-auto' and pos == 'first' else None
+    if kind == 'template-auto-2words':
+        return (x, S.const(rnp.array([[0, 60], [1, 0]], dtype='uint8'))) if dist == 'TemplateBuild-auto' and pos == 'first' else None
     if kind == 'type-traces':
         return [[1.0, 2.0], [3.0, 4.0]], y
     if kind == 'type-data':
@@ -192,10 +201,10 @@ def replay(w):
             return D.SNRDistinguisher(precision='float64')
         if dist == 'MIA':
             return D.MIADistinguisher(bin_edges=[0, 2, 4, 6], partitions=[0, 1, 2])
-        if dist == 'TemplateBuild':
+        if dist in ('TemplateBuild', 'TemplateBuild-auto'):
             class TB(D.partitioned.PartitionedDistinguisherBase, D.template._TemplateBuildDistinguisherMixin):
                 pass
-            return TB(partitions=[0, 1], precision='float64')
+            return TB(partitions=[0, 1] if dist == 'TemplateBuild' else None, precision='float64')
         class TM(D.template.TemplateAttackDistinguisherMixin):
             pass
         o = TM(partitions=[0, 1], precision='float64')
@@ -211,13 +220,14 @@ def replay(w):
             y = np.array([[rnd.randrange(256) for _ in range(2)] for _ in range(rows)], dtype='uint8')
         elif dist == 'DPA':
             y = np.array([[0, 1], [1, 1], [1, 0]][:rows], dtype='uint8')
-        elif dist in ('TemplateBuild', 'TemplateMatch'):
+        elif dist in ('TemplateBuild', 'TemplateBuild-auto', 'TemplateMatch'):
             y = np.array([[0], [1], [1]][:rows], dtype='uint8')
         else:
             y = np.array([[0, 1], [2, 1], [1, 1]][:rows], dtype='uint8')
         return x, y
     x, y = good()
-    bad = {'rows': (x, y[:1]), 'length': (np.ones((2, 3), dtype=x.dtype), y), 'words': (x, np.array([[0, 1, 2], [2, 1, 0]], dtype='uint8')),
+    bad = {'rows': (x, y[:1]), 'length': (np.ones((2, 3), dtype=x.dtype), y), 'words': (x, np.array([[0, 1, 1], [1, 1, 0]], dtype='uint8')),
+           'auto-bad-dtype': (x, np.array([[0, 60], [1, 1]], dtype='int64')), 'template-auto-2words': (x, np.array([[0, 60], [1, 0]], dtype='uint8')),
            'type-traces': ([[1.0, 2.0], [3.0, 4.0]], y), 'type-data': (x, [[0, 1], [1, 0]]), 'dpa-range': (x, np.array([[0, 3], [1, 1]], dtype='uint8')),
            'auto-255': (x, np.array([[0, 300], [1, 1]], dtype='uint16')), 'template-2words': (x, np.array([[0, 1], [1, 0]], dtype='uint8')), 'match-before-build': (x, y)}[kind]
     obj, ref = mk(), mk()
